@@ -38,11 +38,15 @@ def run_one(pid: str, shard: dict, workdir: str, idx: int, timeout: float) -> di
     e.update({k: str(v) for k, v in shard.get("_env", {}).items()})
     e["PYTHONDONTWRITEBYTECODE"] = "1"
     t0 = time.time()
+    cwd = env.VERIF
+    if shard.get("_cwd") == "empty":
+        cwd = os.path.join(workdir, f"cwd{idx}")
+        os.makedirs(cwd, exist_ok=True)
     try:
         p = subprocess.run(
             [env.PY, "-X", "faulthandler", *[str(x) for x in shard.get("_pyflags", [])], "-m", "vf.worker", pid, sp, op],
             env=e,
-            cwd=env.VERIF,
+            cwd=cwd,
             capture_output=True,
             text=True,
             timeout=timeout + 30,
@@ -202,6 +206,12 @@ def main(argv=None):
                 co.update({"_variant": "optimised-c-locale", "_pyflags": ["-OO"], "_env": {"LC_ALL": "C", "LANG": "C", "PYTHONCOERCECLOCALE": "0", "PYTHONUTF8": "0"}, "_prelude": True, "_reach": False,
                            "_name": "optimised-c-locale-of-" + str(src.get("_name"))})
                 shards.append(co)
+                # ... and once in a process whose wall clock reads 75 years later, started in an empty directory with
+                # an unusual time zone (nothing in the properties depends on when or where the library runs)
+                ce = json.loads(json.dumps(src))
+                ce.update({"_variant": "clock-2101-other-cwd", "_clock_years": 75, "_cwd": "empty", "_env": {"TZ": "Pacific/Kiritimati", "HOME": "/nonexistent"}, "_prelude": True, "_reach": False,
+                           "_name": "clock-2101-of-" + str(src.get("_name"))})
+                shards.append(ce)
         if not replay and meta.get("prelude", True):
             for i_, s_ in enumerate(shards):
                 if i_ % 2 == 1 and "_prelude" not in s_:
